@@ -94,6 +94,15 @@ fn plus(small: &L, big: &L, extra: &[(Key, EV)]) -> bool {
 fn filt(l: &L, k: Key) -> L {
     l.iter().cloned().filter(|x| x.0 != k).collect()
 }
+/// `t` is `s` with exactly one occurrence of `e` removed (and nothing else moved)
+fn minus_one(s: &L, t: &L, e: (Key, EV)) -> bool {
+    if s.len() != t.len() + 1 {
+        return false;
+    }
+    let j = (0..t.len()).find(|&i| s[i] != t[i]).unwrap_or(t.len());
+    s[j] == e && s[j + 1..] == t[j..]
+}
+#[allow(dead_code)]
 fn remove_rank(l: &L, peer: Key, rank: usize) -> Option<(L, EV)> {
     let mut r = 0;
     for (i, x) in l.iter().enumerate() {
@@ -165,22 +174,10 @@ pub fn d_step(s: &State, op: OpKind, u: usize, v: usize, e: EV, ret: &Ret, t: &S
             if !s.out[u].iter().any(|x| x.0 as usize == v && x.1 == *val) {
                 return fail("disconnect.returned-value-not-of-the-pair", format!("ret={:?}", ret));
             }
-            // allowed successors: remove the k-th u->v entry at the source and
-            // the k'-th at the target, both carrying the returned value.
-            for k in 0..cnt {
-                let (o2, ev) = remove_rank(&s.out[u], v as Key, k).unwrap();
-                if ev != *val {
-                    continue;
-                }
-                for k2 in 0..cnt {
-                    let Some((i2, ev2)) = remove_rank(&s.inc[v], u as Key, k2) else { continue };
-                    if ev2 != *val {
-                        continue;
-                    }
-                    if t.out[u] == o2 && t.inc[v] == i2 && same_except(&[u], &[v]) {
-                        return Ok(());
-                    }
-                }
+            // allowed successors: one u->v entry carrying the returned value is gone at the source and one at the
+            // target, everything else is in place (linear: the lists may hold thousands of parallel edges)
+            if minus_one(&s.out[u], &t.out[u], (v as Key, *val)) && minus_one(&s.inc[v], &t.inc[v], (u as Key, *val)) && same_except(&[u], &[v]) {
+                return Ok(());
             }
             fail("disconnect.not-exactly-one-edge-removed", format!("before out={:?} in={:?} after out={:?} in={:?}", s.out[u], s.inc[v], t.out[u], t.inc[v]))
         }
